@@ -152,3 +152,40 @@ func init() {
 		return checkC11BadText(c)
 	})
 }
+
+// c11.clitext: valid IDL text through the command line: exit 0; a failure is classified by
+// whether the process reported a diagnostic (exit 1 with a message) or died with a Go trace.
+func checkC11CliText(c textCase) *ev.Failure {
+	dir, cleanup := scratchDir("c11ct")
+	defer cleanup()
+	root, err := c.write(filepath.Join(dir, "src"))
+	if err != nil {
+		return ev.Failf("harness:write", "%v", err)
+	}
+	args := []string{"-gen", c.Target, "-out", filepath.Join(dir, "out")}
+	if c.Recurse {
+		args = append(args, "-r")
+	}
+	r := runCLI(dir, append(args, root)...)
+	switch {
+	case r.exit == -2:
+		return ev.Failf("harness:cli", "%s", r.out)
+	case r.timedOut:
+		return ev.Failf("cli-hang:text", "the compiler did not terminate within 20s\n%s", c.texts())
+	case strings.Contains(r.out, "goroutine ") || strings.Contains(r.out, "fatal error:") || r.exit > 1:
+		return ev.Failf("cli-crash:text", "the compiler died with a Go runtime trace, exit %d:\n%s\n%s", r.exit, clip(r.out, 1500), c.texts())
+	case r.exit != 0:
+		return ev.Failf("cli-rejects-valid:"+errSig(r.out), "-gen %s exits %d on valid IDL: %s\n%s", c.Target, r.exit, clip(r.out, 600), c.texts())
+	}
+	return nil
+}
+
+func init() {
+	ev.Register("c11.clitext", func(raw []byte) *ev.Failure {
+		var c textCase
+		if err := json.Unmarshal(raw, &c); err != nil {
+			return ev.Failf("harness:bad-replay", "%v", err)
+		}
+		return checkC11CliText(c)
+	})
+}
